@@ -66,6 +66,8 @@ def run(pid, tier, seed, replay):
     # the wake-up protocol at lock granularity: every label of Log/HwWaitRo.v is one call into the commit log
     lines3 = ctx.go_driver("server/commitlog", ["commitlog/hwwait_test.go"], "^TestVerifHwWait$", env={"VERIF_N": 300 if tier == "quick" else 5000}, timeout=1500)
     wcases = [l for l in lines3 if l.get("k") == "hwwait"]
+    for c in wcases:
+        c["steps"] = c.get("steps") or []
     wm = eval_hwwait(ctx, wcases)
     for c, j in wm[:3]:
         ctx.tie_problems.append({"what": "correspondence Log.HwWaitCheck.wcases_mismatches: label sequence %d differs from the LTS after step %d (%s)" % (c["id"], j, json.dumps(c["steps"][j]["lb"])),
